@@ -234,6 +234,9 @@ func (r *Reconciler) updateInstanceWithCurrentRS(logger logr.Logger, now time.Ti
 		newDaemonset.Status.Desired = current.Status.Desired
 		newDaemonset.Status.UpToDate = current.Status.Current
 		newDaemonset.Status.State = nonCanaryState(daemonset.GetAnnotations())
+		// the reason only qualifies a paused canary (it is set again below in that case): do not keep a stale one,
+		// e.g. when the canary strategy was removed from the spec while the canary was paused
+		newDaemonset.Status.Reason = ""
 		newDaemonset.Status.IgnoredUnresponsiveNodes = current.Status.IgnoredUnresponsiveNodes
 	}
 
